@@ -480,7 +480,7 @@ def run(ctx):
     for k in ctx.known:
         if k.get('replay_source'):
             differential(ctx, [(k['id'], k['replay_source'])], osets_all, 'known')
-    differential(ctx, scopegen.capture_programs() + scopegen.sibling_comprehension_programs() + scopegen.declaration_programs(), [s for s in osets_all if s[0] in ('defaults', 'only:rename_locals')], 'directed-scopes')
+    differential(ctx, scopegen.capture_programs() + scopegen.class_import_programs()[::(1 if ctx.tier == 'thorough' else 4)] + scopegen.sibling_comprehension_programs() + scopegen.declaration_programs(), [s for s in osets_all if s[0] in ('defaults', 'only:rename_locals')], 'directed-scopes')
     wide = [('wide%d' % i, rungen.program(ctx.rng)) for i in range(ctx.scale(160, 2500))]
     osets_small = [osets_all[0], osets_all[1]] + [s for s in osets_all if s[0].startswith('random')][:ctx.scale(3, 8)]
     osets_small += [s for s in osets_all if s[0] in ('only:rename_locals', 'only:hoist_literals', 'without:rename_locals', 'only:constant_folding')]
